@@ -14,6 +14,7 @@ import contextlib
 import io
 import json
 import os
+import signal
 import sys
 import warnings
 
@@ -109,10 +110,55 @@ def build(tree):
     for i in range(2, n + 1):
         for r in tree["req"][i - 1]:
             obj[i].requires(obj[r])
+    if tree.get("pre") == 2:
+        # rendered once, then one job of each nested scheduler is taken out and put back
+        # (a tree that grows between two exports)
+        sink = io.StringIO()
+        held = []
+        for s in range(2, n + 1):
+            if tree["kind"][s - 1] == "sched" and kids[s]:
+                held.append((s, kids[s][-1]))
+                obj[s].remove(obj[kids[s][-1]])
+        with contextlib.redirect_stdout(sink):
+            try:
+                obj[1].dot_format()
+            except BaseException:                       # pylint: disable=W0703
+                pass
+        for s, k in held:
+            obj[k]._sched_id = None                     # a job that was never numbered
+            obj[s].add(obj[k])
+    if tree.get("pre") == 3:
+        # rendered once, then every nested scheduler is listed on its own
+        sink = io.StringIO()
+        with contextlib.redirect_stdout(sink):
+            try:
+                obj[1].dot_format()
+                for s in range(2, n + 1):
+                    if tree["kind"][s - 1] == "sched":
+                        obj[s].list()
+            except BaseException:                       # pylint: disable=W0703
+                pass
     return obj
 
 
-def run_tree(tree):
+class WallClock(BaseException):
+    """a call into the library is taking real time (it loops, or waits for something)"""
+
+
+def _alarm(_signum, _frame):
+    raise WallClock()
+
+
+def run_tree(item):
+    signal.signal(signal.SIGALRM, _alarm)
+    signal.setitimer(signal.ITIMER_REAL, 15)
+    try:
+        return _run_tree(item)
+    finally:
+        signal.setitimer(signal.ITIMER_REAL, 0)
+
+
+def _run_tree(tree):
     n = len(tree["kind"])
     out = {"tid": tree["tid"], "tree": tree}
     sink = io.StringIO()
